@@ -181,9 +181,11 @@ func vReplayOrCorpusOnly() bool {
 	return vEnv("VERIF_REPLAY") != "" || vEnv("VERIF_CORPUS_ONLY") != ""
 }
 
-var c14FilterLevels = []string{"", "a", "b", "+", "#", "a+", "#b", "+a", "a#", "日本", "é", " ", "$SYS", "ab", "A", "++", "+#"}
-var c14TopicLevels = []string{"", "a", "b", "日本", "é", " ", "ab", "A", "$SYS", "c"}
-var c14TopicFirst = []string{"", "a", "b", "日本", "é", " ", "ab", "A", "c"}
+// (glbvs/yacxa and glbvp/yacxb have equal length and equal 32-bit FNV-1a sums, costarring/liquid and declinate/macallums
+// equal FNV-1 / FNV-1a sums at different lengths: hostile constants for level comparison through a checksum)
+var c14FilterLevels = []string{"", "a", "b", "+", "#", "a+", "#b", "+a", "a#", "日本", "é", " ", "$SYS", "ab", "A", "++", "+#", "glbvs", "yacxa", "glbvp", "costarring", "declinate"}
+var c14TopicLevels = []string{"", "a", "b", "日本", "é", " ", "ab", "A", "$SYS", "c", "glbvs", "yacxa", "yacxb", "liquid", "macallums"}
+var c14TopicFirst = []string{"", "a", "b", "日本", "é", " ", "ab", "A", "c", "glbvs", "yacxa", "yacxb", "liquid", "macallums"}
 
 func c14Join(levels []string) string {
 	s := ""
